@@ -425,6 +425,18 @@ def c02_function_suffix_reordered():
     return line.upper().index("BIND") < line.upper().index("RESULT"), dict(printed=line)
 
 
+def c02_generic_binding_without_blank_after_arrow():
+    """D69 (fixed): 'generic :: g =>ab' lost the first character of the binding name"""
+    t = _printed("module m\ntype :: t\ncontains\nprocedure :: ab\nprocedure :: cd\ngeneric :: g =>ab, cd\ngeneric, public :: operator(+)=>ab\nend type t\nend module m\n")
+    return "GENERIC :: g => ab, cd" in t and "OPERATOR(+) => ab" in t, dict(printed=t)
+
+
+def c02_blanks_of_a_literal_in_a_function_prefix():
+    """D70 (fixed): a literal with a run of blanks in the type of a function prefix lost blanks"""
+    t = _printed("pure  character(len=len('a  b'))  elemental function f()\nend function f\ncharacter(len=len('c   d')) function g()\nend function g\n")
+    return "LEN('a  b')" in t and "LEN('c   d')" in t, dict(printed=t)
+
+
 def c06_named_end_of_unnamed_unit():
     """D43 (fixed)"""
     return _only_syntax_error("block data\nend block data foo\n")
